@@ -168,8 +168,14 @@ func (syncService *SyncService[H]) WriteToStoreAndBroadcast(ctx context.Context,
 		return fmt.Errorf("invalid initial height; cannot be zero")
 	}
 	isGenesis := headerOrData.Height() == syncService.genesis.InitialHeight
-	// For genesis header/block initialize the store and start the syncer
-	if isGenesis {
+	// For genesis header/block initialize the store and start the syncer. A store that is still empty at a
+	// later height (an unclean stop kept the first items from reaching it) is initialized with the current one.
+	storeEmpty := false
+	if !isGenesis {
+		_, err := syncService.store.Head(ctx)
+		storeEmpty = errors.Is(err, header.ErrNoHead)
+	}
+	if isGenesis || storeEmpty {
 		if err := syncService.store.Init(ctx, headerOrData); err != nil {
 			return errors.New("failed to initialize the store")
 		}
